@@ -49,6 +49,11 @@ def parseOp (w : String) : Option Op :=
 def parseOps (s : String) : Option (List Op) :=
   if s = "-" || s = "" then some [] else (s.splitOn ",").mapM parseOp
 
+/-- setup may contain `take`: the producer consumed the staged resume in an earlier wait (`none`). -/
+def parseSetup (s : String) : Option (List (Option Op)) :=
+  if s = "-" || s = "" then some []
+  else (s.splitOn ",").mapM fun w => if w = "take" then some none else (parseOp w).map some
+
 def parseThreads (s : String) : Option (List (List Op)) :=
   if s = "-" then some [] else (s.splitOn "/").mapM parseOps
 
@@ -84,9 +89,11 @@ def dedup (xs : List String) : List String := xs.foldl (fun acc x => if acc.cont
 def answer (idx : String) (expireds : List Bool) (kind len win setup thr order got fin : String) : String :=
   let k? : Option Kind :=
     if kind = "credit" then (natOf? len).map Kind.credit else if kind = "reconnect" then some .reconnect else none
-  match k?, natOf? win, parseOps setup, parseThreads thr, parseOrder order with
+  match k?, natOf? win, parseSetup setup, parseThreads thr, parseOrder order with
   | some k, some w, some su, some th, some ord =>
-    let s0 := su.foldl (fun s o => (applyOp Gen.Wake.cfg.tbl o s).1) (Sh.new w)
+    let s0 := su.foldl (fun s o => match o with
+      | some op => (applyOp Gen.Wake.cfg.tbl op s).1
+      | none => { s with pending := none }) (Sh.new w)
     let th? : Option (List (List Op)) :=
       match ord with
       | none => some th
